@@ -141,6 +141,8 @@ def common_knobs(rng, plan, buggify=True):
         kn["cache_period"] = rng.choice([1, 2, 3, 5, 7, 11])
         kn["cache_offset"] = rng.randrange(kn["cache_period"])
     kn["deny_mmap"] = 1 if (buggify and rng.random() < 0.12) else 0
+    if buggify and rng.random() < 0.2:
+        kn["stale_dwerr"] = 1
     kn["watchdog_s"] = 5
     kn["baseline_watchdog_s"] = 3
 
